@@ -270,6 +270,63 @@ def check_flow(rep, proj, tier):
     rep.floor("kernels whose nf was compared with nf_default", n_kernels, 300)
 
 
+def _history_job(kw):
+    """One runner, two observables, points in two flavour regions, the second observable starting again in the lower region: at every point
+    the scale-variation building blocks (splitting-function operators, beta coefficients) carry the number of flavours of THAT point."""
+    import re
+
+    from .. import model
+    from . import c14
+
+    proj = model.project()
+    base = dict(process=kw["process"], projectile=kw["projectile"], fns="ZM-VFNS", nfff=4, pto=kw["pto"], tmc=0, ren_sv=True, fact_sv=True)
+    try:
+        runner, outs = c14.fold_history(proj, base, [(kw["first"], [1, 4]), (kw["second"], [1, 4])])  # Q2 = 10 (nf 4), 30 (nf 5) with thresholds 1, 25, 10^4
+    except (A.Undecided, S.Raised) as e:
+        return ("fold", "undecided" if isinstance(e, A.Undecided) else "raised", str(e)[:160])
+    bad = []
+    n = 0
+    for name in (kw["first"], kw["second"]):
+        for pt in outs[0].store[name]:
+            if not (isinstance(pt, S.ObjVal) and isinstance(pt.attrs.get("orders"), dict)):
+                continue
+            q2 = S.num_norm(pt.attrs["Q2"])
+            expected = 3 + sum(1 for t in (1, 25, 10**4) if t <= q2)
+            seen = set()
+            for key, (v, e) in pt.attrs["orders"].items():
+                for row in v.data:
+                    for x in row:
+                        if isinstance(x, A.Rat):
+                            for a in x.all_atoms():
+                                if a.startswith(("beta0(", "beta1(")):
+                                    seen.add(int(a[a.index("(") + 1:-1]))
+                                elif a.startswith("convop("):
+                                    for m_ in re.finditer(r"::\w+\[(\d+)\]", a):
+                                        seen.add(int(m_.group(1)))
+            if seen:
+                n += 1
+                if seen != {expected}:
+                    bad.append(f"{name} at Q2 = {q2} (nf = {expected}) carries scale-variation terms built for nf = {sorted(seen)}")
+    return ("ok", bad[:3], n)
+
+
+def check_history(rep, proj, tier):
+    jobs = [dict(first=a, second=b, process=proc, projectile=pr, pto=pto) for (a, b), (proc, pr), pto in itertools.product(
+        [("F2_light", "F2_total"), ("F2_total", "FL_total"), ("F3_total", "F2_light")], [("NC", "electron"), ("CC", "neutrino")], [1, 2])]
+    outs = sweep.run_cells(_history_job, jobs)
+    n = 0
+    for kw, o in zip(jobs, outs):
+        label = f"{kw['first']} then {kw['second']}|{kw['process']}|ZM-VFNS|PTO={kw['pto']}|Q2 = 10, 30 each"
+        if o[0] == "fold":
+            rep.undecided("C06.history", "", label, f"not foldable ({o[1]}): {o[2]}")
+            continue
+        _, bad, k = o
+        n += k
+        rep.check(not bad, "C06.history", "src/yadism/esf/scale_variations.py", label, f"{k} points: splitting-function operators and beta coefficients at each point's own nf",
+                  "; ".join(bad), key=label)
+    rep.floor("points inspected for the nf of their scale-variation terms", n, 30)
+
+
 def _boundary_job(kw):
     """Concrete matching scales: the number of flavours of every generated coefficient function is 3 + #{(m k)^2 <= Q2}, in particular
     a scale that equals Q2 counts (eko: digitize(Q2, walls), right=False)."""
@@ -366,4 +423,5 @@ def run(rep, proj, tier):
     check_fns(rep, proj)
     check_flow(rep, proj, tier)
     check_boundary(rep, proj, tier)
+    check_history(rep, proj, tier)
     check_eko(rep)
